@@ -13,7 +13,7 @@ ACC = "eqsig.single.AccSignal"
 OBJ = SIG + ".gen_fa_spectrum"
 CALC = "eqsig.fns.frequency.calc_fa_spectrum"
 GEN = "eqsig.fns.frequency.generate_fa_spectrum"
-NEXT_P2 = "pow[2,int[ceil[log2[n]]]]"
+NEXT_P2 = "pow[2,ceil[log2[n]]]"
 
 
 def run(chk):
@@ -74,7 +74,7 @@ def run(chk):
         grid_form(chk, r.fi, c)
     # expected N per configuration (the statement's padding rule)
     for (impl, cfg), v in sorted(results.items()):
-        want = {"default": NEXT_P2, "p2_plus": "pow[2,int[ceil[log2[n]]+p2]]", "n": "N", "unpadded": "n"}[cfg]
+        want = {"default": NEXT_P2, "p2_plus": "pow[2,ceil[log2[n]]+p2]", "n": "N", "unpadded": "n"}[cfg]
         chk.ob("R-FAS-SIB", "%s(%s)[N]" % (impl, cfg), "FFT length %s" % want, v[0] == want, derived="N = %s" % v[0])
     for cfg in ("default", "p2_plus", "n", "unpadded"):
         grp = sorted((impl, v) for (impl, c2), v in results.items() if c2 == cfg)
